@@ -104,7 +104,7 @@ def different_value(g, v):
 def make_case(ctx, g):
     w = World()
     fails = []
-    b = DocBuilder(g, w, malformed=0.08, reclock=0.2)
+    b = DocBuilder(g, w, malformed=0.08, reclock=0.2, foreign_formal=0.08)
     d, scopes = b.random_document(n_records=g.rng.randint(1, 7))
     flags = set()
     all_recs = [(c, h) for c in scopes for h in b.recs[c]]
